@@ -169,11 +169,19 @@ type Client struct {
 	// for all active subscriptions.
 	pendingAcks []*ua.SubscriptionAcknowledgement
 
-	// pausech pauses the subscription publish loop
-	pausech chan struct{}
+	// pauseMu guards subsPaused and subsResumes.
+	pauseMu sync.Mutex
 
-	// resumech resumes subscription publish loop
-	resumech chan struct{}
+	// subsPaused is true while the subscription publish loop must not
+	// send publish requests.
+	subsPaused bool
+
+	// subsResumes counts the calls to resumeSubscriptions. The publish loop
+	// uses it to detect a resume which raced with a failed publish request.
+	subsResumes uint64
+
+	// wakech wakes up the paused subscription publish loop
+	wakech chan struct{}
 
 	// mcancel stops subscription publish loop
 	mcancel func()
@@ -219,8 +227,7 @@ func NewClient(endpoint string, opts ...Option) (*Client, error) {
 		sechanErr:   make(chan error, 1),
 		subs:        make(map[uint32]*Subscription),
 		pendingAcks: make([]*ua.SubscriptionAcknowledgement, 0),
-		pausech:     make(chan struct{}, 2),
-		resumech:    make(chan struct{}, 2),
+		wakech:      make(chan struct{}, 1),
 		stateCh:     cfg.stateCh,
 		stateFunc:   cfg.stateFunc,
 	}
